@@ -57,16 +57,26 @@ def run_history(run, case):
     group: how many consecutive reply events are delivered in one dataReceived; units: unit id per request"""
     variant, n, events, group, units = case['variant'], case['n'], case['events'], case.get('group', 1), case['units']
     repo.reset_globals()
+    if case.get('tid_start') is not None and case.get('tid_via_defaults'):
+        # the first transaction id configured through the process-wide Defaults.TransactionId
+        from pymodbus.constants import Defaults
+        old_tid = Defaults.TransactionId
+        Defaults.TransactionId = case['tid_start']
+        try:
+            return run_history(run, dict(case, tid_via_defaults=False, _defaults_tid=True))
+        finally:
+            Defaults.TransactionId = old_tid
     p = make_protocol(variant, case.get('ctor', 'default'))
     tr = proto_helpers.StringTransport()
     p.makeConnection(tr)
-    if case.get('tid_start') is not None:
+    if case.get('tid_start') is not None and not case.get('_defaults_tid'):
         p.transaction.tid = case['tid_start']
     framing = 'tcp' if variant == 'tcp' else 'rtu'
     recs, tids, kinds = [], [], {}
     escaped = []
 
     reqs = {}
+    bad_done = []
 
     def issue(k):
         from pymodbus.register_read_message import ReadHoldingRegistersRequest
@@ -76,6 +86,17 @@ def run_history(run, case):
         else:
             req = ReadHoldingRegistersRequest(2000 + k, 1, unit=units[k % len(units)])
         reqs[k] = req
+        if case.get('bad_encode') is not None and k == case['bad_encode'] + 1 and not bad_done:
+            # between two requests the application submits one that cannot be encoded (register value 70000): the error is the
+            # caller's to see, nothing of it may stay behind in the client
+            bad_done.append(1)
+            from pymodbus.register_write_message import WriteSingleRegisterRequest
+            try:
+                dbad = p.execute(WriteSingleRegisterRequest(7, 70000, unit=units[0]))
+                dbad.addErrback(lambda f: None)
+            except Exception:  # noqa
+                pass
+            before = len(tr.value())
         try:
             d = p.execute(req)
         except Exception as e:  # noqa
@@ -285,7 +306,8 @@ def run(run):
                 events.append(('reply', n))          # a reply arriving after the loss for the late request: must not resurrect it
         units = [1] if i % 4 else [1, 2, 3]
         add(run, {'variant': variant, 'n': n, 'events': events, 'group': r.choice([1, 1, 2, 3, 50]), 'units': units, 'tid_start': r.choice([None, None, 65530, 65534]),
-                  'ctor': ('default', 'instance', 'class')[i % 3], 'reuse': i % 5 == 2, 'retry_on_loss': i % 4 == 1},
+                  'ctor': ('default', 'instance', 'class')[i % 3], 'reuse': i % 5 == 2, 'retry_on_loss': i % 4 == 1, 'tid_via_defaults': i % 2 == 0,
+                  'bad_encode': (0 if i % 6 == 3 else None)},
             ('rand', variant, kind, len(units) > 1))
     # connection loss at every point of a fixed history
     for n in (1, 2, 4):
@@ -294,6 +316,12 @@ def run(run):
             ev.insert(cut, ('lose',))
             ev.append(('request',))
             add(run, {'variant': 'tcp', 'n': n, 'events': ev, 'group': 1, 'units': [1]}, ('loss', n, cut))
+    for variant in ('rtu', 'tcp'):
+        for n in (2, 3, 5):
+            add(run, {'variant': variant, 'n': n, 'events': [('reply', k) for k in range(n)], 'group': 1, 'units': [1], 'bad_encode': 0}, ('bad-encode', variant, n))
+    for start in (0xfff8, 0xfffe, 0x7fff):
+        ev = [('request',)] * 12 + [('reply', k) for k in range(14)]
+        add(run, {'variant': 'tcp', 'n': 2, 'events': ev, 'group': 1, 'units': [1], 'tid_start': start, 'tid_via_defaults': True}, ('defaults-tid', start))
     # a stray reply that carries an id of the future, then the requests that are given that id (they must wait for their own reply)
     for n in (1, 2, 3):
         for ahead in (1, 2, 3):
